@@ -207,6 +207,9 @@ impl State {
                         self.check_occurrences(case, &src, t);
                     },
                     (Err(e), _) => {
+                        if bal && matches!(e, EvalexprError::UnmatchedLBrace | EvalexprError::UnmatchedRBrace) {
+                            self.fail("balanced_reported_unbalanced", format!("{src:?}: balanced input reported as {e:?}"), case, observed.clone());
+                        }
                         self.fail_key(&check_wf, format!("{src:?}: well-formed input rejected with {e:?}"), case, observed.clone(), fk_of(case))
                     },
                     (_, None) => self.bad_lines += 1,
@@ -663,6 +666,10 @@ impl State {
         let mut slots: Vec<Option<HashMapContext<DefaultNumericTypes>>> = vec![Some(HashMapContext::new()), None];
         let mut probe: Vec<String> = vec!["never_defined".into()];
         let mut trail: Vec<String> = Vec::new();
+        // every second case evaluates through precompiled trees that are REUSED across the steps of the history: a tree must
+        // not remember anything about the context it was evaluated in before (the context changes between the steps)
+        let reuse_trees = self.cases % 2 == 0;
+        let mut trees: std::collections::HashMap<String, Tree> = std::collections::HashMap::new();
         for (i, step) in steps.iter().enumerate() {
             let call = &step["call"];
             let op = call["op"].as_str().unwrap_or("");
@@ -687,7 +694,18 @@ impl State {
                     "set_value" => c.set_value(n.clone(), dec_value(&call["v"]).unwrap_or(Value::Empty)).map(|_| Value::Empty),
                     "eval" => {
                         let src = call["toks"].as_array().map(|a| a.iter().map(text_of).collect::<Vec<_>>().join(" ")).unwrap_or_default();
-                        if call["mode"].as_str() == Some("imm") {
+                        let imm = call["mode"].as_str() == Some("imm");
+                        if reuse_trees {
+                            if !trees.contains_key(&src) {
+                                trees.insert(src.clone(), build_operator_tree::<DefaultNumericTypes>(&src)?);
+                            }
+                            let t = &trees[&src];
+                            if imm {
+                                t.eval_with_context(&*c)
+                            } else {
+                                t.eval_with_context_mut(c)
+                            }
+                        } else if imm {
                             eval_with_context(&src, &*c)
                         } else {
                             eval_with_context_mut(&src, c)
